@@ -12,9 +12,14 @@ import Fbr.Lemmas.VfsAlloc
 import Fbr.Lemmas.VfsInv
 import Fbr.Lemmas.VfsRoute
 import Fbr.Gen.VfsSync
+import Fbr.Lemmas.VfsMap
+import Fbr.Lemmas.VfsPseudo
+import Fbr.Lemmas.VfsPersist
+import Fbr.Lemmas.VfsNoPanic
 
 namespace Fbr.Thm.C07
 open Fbr.Vfs Fbr.Persist Fbr.Lemmas.VfsAlloc Fbr.Lemmas.VfsInv Fbr.Lemmas.VfsRoute
+open Fbr.Lemmas.VfsMap Fbr.Lemmas.VfsPseudo Fbr.Lemmas.VfsPersist Fbr.Lemmas.VfsNoPanic
 
 /-! ### the mount-table invariant holds after every history -/
 
@@ -351,6 +356,54 @@ theorem root_mount_routes (s : State) (h : Inv s) (m : Mnt) (hm : s.mnts ROOT_ID
   have h2 : lowIno 1 = ROOT_ID := by decide
   have : ¬ m.ino > VFS_MAX_INO := by omega
   simp [h1, h2, hm, hb, this]
+
+/-! ### no modelled panic site is reachable -/
+
+/-- one step from a well-formed, guarded state: the invariants are kept and the outcome is not
+    `panic` — neither an `unwrap()` of the pseudo fs (the tree is well-formed), nor the
+    `assert_eq!` of `VfsInode::new` (recorded root inodes fit 56 bits), nor the `u32` arithmetic of
+    `remap_id` (the mappings satisfy `base + range ≤ 2^32`, ids are `u32`) -/
+theorem step_no_panic (s : State) (op : Op) (hi : Inv s) (hp : PInv s) (hg : MapsGuarded s) (hok : OpOk op) :
+    (Inv (step s op).1 ∧ PInv (step s op).1 ∧ MapsGuarded (step s op).1) ∧ (step s op).2.1 ≠ .panic := by
+  cases op with
+  | mount b path map =>
+    have := mount_guarded_no_panic hi hp hg b path map hok
+    exact ⟨⟨mount_inv hi b path map, mount_pinv hi hp b path map, this.1⟩, this.2⟩
+  | umount path => exact ⟨⟨umount_inv hi path, umount_pinv hi hp path, umount_guarded hg path⟩, umount_no_panic hp path⟩
+  | init o => exact ⟨⟨init_inv hi o, init_pinv hp o, (init_guarded hg o).1⟩, (init_guarded hg o).2⟩
+  | destroy => exact ⟨⟨destroy_inv hi, destroy_pinv hp, (destroy_guarded hg).1⟩, (destroy_guarded hg).2⟩
+  | req r =>
+    obtain ⟨res, calls, h1, h2⟩ := handle_no_panic hi hg r hok.1 hok.2
+    simp only [step, h1]
+    exact ⟨⟨hi, hp, hg⟩, h2⟩
+  | saveRestore m => exact absurd hok (by simp [OpOk])
+
+/-- no step of any history of a VFS without eviction of pseudo directories, with guarded mappings
+    and `u32` ids, ends in a panic -/
+theorem no_panic_all_histories (opts : Opts) (hgm : OptMapOk (State.new opts false).globalMap) (ops : List Op)
+    (hok : ∀ op ∈ ops, OpOk op) :
+    ∀ x ∈ run (State.new opts false) ops, x.1 ≠ .panic := by
+  suffices h : ∀ (ops : List Op) (s : State), (∀ op ∈ ops, OpOk op) → Inv s → PInv s → MapsGuarded s →
+      ∀ x ∈ run s ops, x.1 ≠ .panic from
+    h ops _ hok (inv_new opts false) (pinv_new opts) ⟨by intro i m hm; simp [State.new] at hm, hgm⟩
+  intro ops
+  induction ops with
+  | nil => intro s _ _ _ _ x hx; simp [run] at hx
+  | cons op rest ih =>
+    intro s hok hi hp hg x hx
+    obtain ⟨⟨hi', hp', hg'⟩, hnp⟩ := step_no_panic s op hi hp hg (hok op (by simp))
+    unfold run at hx
+    cases hst : step s op with
+    | mk s' rc =>
+      obtain ⟨r, c⟩ := rc
+      rw [hst] at hx hi' hp' hg' hnp
+      simp only at hnp
+      cases r <;> first
+        | exact absurd rfl hnp
+        | (simp only [List.mem_cons] at hx
+           rcases hx with hx | hx
+           · subst hx; simp
+           · exact ih s' (fun o ho => hok o (by simp [ho])) hi' hp' hg' x hx)
 
 /-! ### source structure (generated table) -/
 
